@@ -8,6 +8,11 @@ HOOK_COMMITS = ["204cfe3", "2edc694", "e1d8638"]
 
 # id -> (category, technique, level text, level note, design ref)
 CHECKS = {
+ "C20": ("exploration",
+         "runtime oracle re-parsing real highlighter output (markup, escaping, separators) against the stored text and the term locations of real searches; adversarial location maps and invalid texts in child processes for the no-panic clause",
+         "Generated valid UTF-8 texts are indexed with four bundled analyzers (cjk for overlapping occurrences), searched with locations and highlighted with fragment sizes 1..300, 0..5 fragments and both formatters; each fragment must de-mark/unescape to a contiguous slice of the text, every mark must be one occurrence or a run of overlapping ones, fragments must be placeable without overlap, at most num, and the best one must hold a match when one fits. Hostile location maps (negative, inverted, out of range, unsorted) and invalid texts must not kill a child. Held on the inputs explored.",
+         "Trusts: the markup parser of the harness; 'fits' = rune length of the occurrence <= fragment size; ambiguous placements resolved in favour of the code.",
+         "DESIGN.md §4 C20"),
  "C14": ("fault_enumeration",
          "fault injection at the Directory seam, enumerated over the operation indexes of a recorded fault-free run, each faulty re-run in a child process monitored for death / lack of progress, with reader-vs-model oracles after every batch, surfacing checks (Batch error, AsyncError), an acknowledgement probe after the fault clears and crash-image recovery of the faulty trace",
          "For seeded histories the fault-free operation sequence is recorded; the same history is then re-run with an injected failure at chosen operation indexes for Persist (before any byte / after a partial write / after the full write), Load, Remove and List, transient and sticky, in safe and unsafe mode (pairs of placements in the thorough tier). Each run must not die or stall, readers must follow the applied batches, background failures must reach AsyncError (and the waiting Batch), the batch after the fault must be acknowledged, and all boundary crash images of the faulty trace must recover to a state not older than the last acknowledgement. Enumerated over the sampled placements of each history.",
